@@ -5,45 +5,7 @@ import json, subprocess
 ENV = "export GOFLAGS=-mod=mod GOPROXY=off GOSUMDB=off GOTOOLCHAIN=local"
 HOOK_COMMIT = subprocess.run(["git", "-C", "/repo", "log", "--format=%h", "-1", "--", "uhppote/verif_hooks.go"], capture_output=True, text=True).stdout.strip()
 
-H = "in-memory driver installed through the verif hook"
-CHECKS = {
- "C01": ("exploration", "runtime monitor at the driver hook + reference-model oracle",
-         "Every request the library hands to the transport (recorded at the driver hook, {H}) is compared byte-for-byte with an independent reference encoding over random interleaved call histories on several clients and goroutines and per-field sweeps (all u8/HH:mm/PIN/port/date values in thorough). Sampling, not proof: 32-bit fields are sampled.".replace("{H}", H),
-         "trusted: the frozen protocol table, the reference encoder, the hook forwarding exactly what the real driver would get", "§4 C01"),
- "C02": ("exploration", "reference-model oracle over scripted replies (in-memory driver)",
-         "Replies drawn from each field's full byte-pattern domain are played to all 31 reply-bearing operations; the API result is judged by a three-valued reference decoder (must / error-or-zero / don't-care). Exhaustive per single-byte field, HH:mm pair and (thorough) the 10^8 BCD date patterns; 32-bit fields sampled.",
-         "trusted: frozen protocol table and reference decoder; TZ=UTC (zones are C13)", "§4 C02"),
- "C05": ("exploration", "round-trip monitor over the repository's own message structs, one child process per time zone",
-         "Reflection-filled in-domain values of all 65 message structs are encoded, compared with the reference encoding, decoded and compared canonically; bytes outside fields are randomised; dispatchers probed with all 256 codes x lengths x protocol ids; repeated with TZ = 40 (quick) / every distinct zone file (thorough).",
-         "trusted: frozen protocol table; installed tz database", "§4 C05"),
- "C07": ("exploration", "acceptance monitor at the driver hook against the documented validation rules",
-         "Calls on both sides of every validation rule: rejected calls must error and reach the driver zero times, accepted calls exactly once with the documented bytes; thorough sweeps all 2^32 card numbers against Wiegand-26.",
-         "trusted: the rule transcription (Wiegand-26 = FFFNNNNN <= 8 digits)", "§4 C07"),
- "C12": ("exploration", "reference BCD oracle, bounded-exhaustive + random",
-         "All strings up to 5 (quick) / 6 (thorough) symbols over a 12-symbol alphabet, all byte slices up to 3 bytes, every Unicode code point, random long inputs with one bad symbol/nibble at every position; checks bytes, error iff bad symbol, both round trips.",
-         "position independence beyond the enumerated lengths is sampled up to length 64, not proved", "§4 C12"),
- "C15": ("exploration", "three-valued address oracle, bounded-exhaustive + mutation",
-         "All strings up to 6 (quick) / 7 (thorough) symbols over a 9-symbol alphabet x 4 roles, all 65536 ports, random addresses and single-character mutations; must-accept values compared with the written address/port, Set/JSON/format-parse round trips.",
-         "strings containing a dotted quad that are not exactly a.b.c.d[:port] are don't-care", "§4 C15"),
- "C16": ("exploration", "order-axiom monitor against calendar tuples",
-         "All 1441^2 HH:mm pairs, all adjacent-day pairs (thorough; sampled years in quick), random pairs and triples, DateTime.Before around second boundaries, SetTimeProfile segment acceptance through the in-memory driver.",
-         "DateTime.Before judged from 1970 on", "§4 C16"),
- "C18": ("exploration", "generated message layouts (reflect.StructOf) against a reference field encoder",
-         "Struct types generated from the tag grammar: exhaustive single-field layouts (22 kinds x every offset), random multi-field layouts with embedding and tagged values; encode bytes, round trip, enforcement of tagged values, no aliasing, no panic.",
-         "layouts limited to what reflect.StructOf can express", "§4 C18"),
-}
-PENDING = {
- "C03": "check under construction in this session (loopback farm not yet built)",
- "C04": "check under construction in this session",
- "C06": "check under construction in this session (loopback farm not yet built)",
- "C08": "check under construction in this session (loopback farm not yet built)",
- "C09": "check under construction in this session (loopback farm not yet built)",
- "C10": "check under construction in this session (loopback farm not yet built)",
- "C11": "check under construction in this session (loopback farm not yet built)",
- "C13": "check under construction in this session",
- "C14": "check under construction in this session",
- "C17": "check under construction in this session",
-}
+CHECKS, PENDING = {}, {}
 import importlib.util, os, sys
 ov = os.path.join(os.path.dirname(__file__), "manifest_table.py")
 if os.path.exists(ov):
